@@ -181,7 +181,7 @@ PROPS = {
             "nontrivial": pure_nontrivial("curve"),
             "rule": "each curve configuration passed to the real validate() (and, if accepted, calc_interest_rate over an ascending utilization sweep) is one evaluation; all are non-trivial; distinct by configuration",
             "min_nontrivial": 1000},
-    "C10": {"models": [txm("Recv"), txm("Recv2", "setups/tx.json"), txm("Recv3")] + RECV_MODELS, "drivers": ADMIN_DRIVERS + LIQ_DRIVERS + RECV_DRIVERS + KAMINO_DRIVERS, "nontrivial": tx_nontrivial,
+    "C10": {"models": [txm("Recv"), txm("Recv2", "setups/tx.json"), txm("Recv3"), txm("RecvP", "setups/tx.json")] + RECV_MODELS, "drivers": ADMIN_DRIVERS + LIQ_DRIVERS + RECV_DRIVERS + KAMINO_DRIVERS, "nontrivial": tx_nontrivial,
             "rule": "each instruction list executed as one atomic transaction on the real program is one evaluation; all are non-trivial; distinct by (instruction list, result)",
             "min_nontrivial": 1000},
     "C11": {"models": [txm("Flash"), txm("Flash3"), txm("FlashW")], "drivers": ADMIN_DRIVERS, "nontrivial": tx_nontrivial,
